@@ -17,7 +17,7 @@ import BfeVerif.C42.Model
           p<tt>.<vvvv>.<n>.<k>  header announcing n bytes followed by only k < n bytes (must be last)
           z<hex>           stray bytes (fewer than 5; must be last)
         then EOF.
-  result = `d=<delivered hex> e=<error class> q=<records accepted>`
+  result = `d=<delivered hex> e=<first error> q=<records accepted> a=<hex delivered by 4 further Reads> r=<their errors>`
 
   The model is run on a *symbolic* byte stream: the body of R_i is `be64(i) ++ [typ] ++ plaintext`, junk is
   0xEE…, and decrypt is the ideal functionality `idealDec` for the client's history (the hypothesis
@@ -152,19 +152,29 @@ def run' (op impl : String) : Option Ans := do
   let frames ← optAll (wireS.map (frameBytes sent vers))
   let w := frames.foldr (· ++ ·) []
   let r := runStream (idealDec symEnc sent) vers w
-  let model := "d=" ++ hexField r.out ++ " e=" ++ renderErr r.err ++ " q=" ++ toString r.seq
+  -- four further Reads after the first error (none after io.ErrNoProgress, which is not sticky in Go)
+  let more := if r.err == some Err.noprogress || r.err.isNone then (([] : Bytes), "-")
+    else let m := readMore (idealDec symEnc sent) vers 4 r; (m.1, ",".intercalate (m.2.map renderErr))
+  let model := "d=" ++ hexField r.out ++ " e=" ++ renderErr r.err ++ " q=" ++ toString r.seq ++
+    " a=" ++ hexField more.1 ++ " r=" ++ more.2
   -- spec oracle on the implementation's result
   let verdict :=
     match impl.splitOn " " with
-    | [d, e, _] =>
-      match bytesOfHex (String.ofList (d.toList.drop 2)) with
-      | none => "FAIL:unparsable"
-      | some dl =>
+    | [d, e, _, a, rr] =>
+      match bytesOfHex (String.ofList (d.toList.drop 2)), bytesOfHex (String.ofList (a.toList.drop 2)) with
+      | some dl, some al =>
         let all := appBytes sent
         let upToClose := appBytes (sent.takeWhile fun r => !isCloseNotify r)
         let plain := (sent.dropLast.all fun r => r.1 == 23 && !r.2.isEmpty && r.2.length ≤ maxPlaintext) &&
           (match sent.getLast? with | some r => isCloseNotify r | none => false)
-        if !isPrefixB dl all then "FAIL:not-prefix"
+        let laterErrs := (String.ofList (rr.toList.drop 2)).splitOn ","
+        let firstErr := String.ofList (e.toList.drop 2)
+        -- (b) nothing at all is delivered after the first error
+        if !al.isEmpty then "FAIL:delivered-after-error"
+        -- (a) everything delivered is a prefix of what the peer sent
+        else if !isPrefixB dl all then "FAIL:not-prefix"
+        -- (c) the error is sticky: every later Read returns it again
+        else if rr != "r=-" && laterErrs.any (fun x => x != firstErr) then "FAIL:error-not-sticky"
         else if e == "e=eof" && dl != upToClose then
           (match honestPrefixLen wireS 0 with
            | some _ => "FAIL:trunc-eof"
@@ -172,6 +182,7 @@ def run' (op impl : String) : Option Ans := do
         else if plain && wireS == (List.range sent.length).map (fun i => "o" ++ toString i) &&
             (e != "e=eof" || dl != all) then "FAIL:honest-rejected"
         else "ok"
+      | _, _ => "FAIL:unparsable"
     | _ => if impl.startsWith "PANIC" then "FAIL:panic" else "FAIL:unparsable"
   let kind := kindTag wireS sent.length
   pure { model := model, verdict := verdict,
